@@ -190,8 +190,16 @@ def run(ctx: Ctx) -> Result:
             singletons = {(ph, p['name']) for ph, ps in case.phens for p in ps if p.get('singleton')}
             check_history(case, outs, r, nblocks, singletons)
             # drain the producer, then re-serialise everything that was ever published
-            while rd.producer.update():
-                pass
+            try:
+                while rd.producer.update():
+                    pass
+            except Exception as e:   # the producer only sees what the decider published
+                r.violations.append(Violation(
+                    'subscriber-rejected-published-record',
+                    f"the producer raised {e.__class__.__name__}: {e} on a run the decider published as completed "
+                    f"(a record of a phenomenon/pattern this instance does not know must be dropped, not published)",
+                    case.to_json()))
+                return
             for batch in rd.rec.published:
                 for obj, text in batch:
                     if obj.to_json_str() != text:
